@@ -127,3 +127,41 @@ var vhSupportedTypes = []byte{
 	TypeDate, TypeTime, TypeDateTime, TypeYear, TypeNewDate, TypeVarchar, TypeBit, TypeTimestamp2, TypeDateTime2, TypeTime2,
 	TypeJSON, TypeNewDecimal, TypeEnum, TypeSet, TypeTinyBlob, TypeMediumBlob, TypeLongBlob, TypeBlob, TypeVarString, TypeString, TypeGeometry,
 }
+
+// ---- exported wrappers for the end-to-end harness in package gobinlog ----
+
+// VHWriter is the independent event writer, exported for the gobinlog harness.
+type VHWriter struct{ w vw }
+
+func (x *VHWriter) U8(v byte)                    { x.w.u8(v) }
+func (x *VHWriter) U16(v uint16)                 { x.w.u16(v) }
+func (x *VHWriter) U32(v uint32)                 { x.w.u32(v) }
+func (x *VHWriter) U48(v uint64)                 { x.w.u48(v) }
+func (x *VHWriter) U64(v uint64)                 { x.w.u64(v) }
+func (x *VHWriter) Raw(p []byte)                 { x.w.raw(p) }
+func (x *VHWriter) Str(s string)                 { x.w.str(s) }
+func (x *VHWriter) LenEnc(n uint64)              { x.w.lenenc(n) }
+func (x *VHWriter) Bytes() []byte                { return x.w.b }
+func (x *VHWriter) TableID(id uint64, width int) { x.w.tableID(id, width) }
+
+// VHEvent wraps a body into a v4 event (header, body, optional checksum bytes).
+func VHEvent(typ byte, ts, serverID, nextPos uint32, flags uint16, body []byte, crc []byte) []byte {
+	return vwEvent(typ, ts, serverID, nextPos, flags, body, crc)
+}
+
+// VHFormatBody: body of a FORMAT_DESCRIPTION_EVENT announcing the checksum
+// algorithm and the post-header lengths for the given table-id width.
+func VHFormatBody(alg byte, tableIDWidth int) []byte {
+	f := vwFormat(alg, tableIDWidth)
+	w := &vw{}
+	w.u16(4)
+	ver := make([]byte, 50)
+	copy(ver, "5.7.0-log")
+	w.raw(ver)
+	w.u32(0)
+	w.u8(19)
+	w.raw(f.HeaderSizes)
+	w.u8(alg)
+	w.raw([]byte{0, 0, 0, 0})
+	return w.b
+}
